@@ -1,4 +1,5 @@
 import MesaModel.Proofs.Devs
+import MesaModel.Gen.DevsTables
 /-!
 # C14 — the simulators run each live event once, in (time, priority, FIFO) order
 
@@ -132,6 +133,16 @@ theorem C14_peek_is_execution_order {s : Sim} (h : Reachable s) (n : Nat) :
   · intro e he
     have := List.mem_of_mem_take he
     simpa [Ev.live] using (List.mem_filter.mp this).2
+
+/-- The priority levels the source defines (regenerated from `eventlist.py` on every run) are the three the model and
+    the harness use, and they order events as documented: HIGH before DEFAULT before LOW. -/
+theorem C14_priority_order_generated :
+    Gen.priorities.lookup "HIGH" = some 1 ∧ Gen.priorities.lookup "DEFAULT" = some 5 ∧
+    Gen.priorities.lookup "LOW" = some 10 ∧ Gen.priorities.length = 3 ∧
+    ∀ (a b : Ev), a.time = b.time → a.prio = 1 → b.prio = 5 ∨ b.prio = 10 → a.lt b = true := by
+  refine ⟨by decide, by decide, by decide, by decide, ?_⟩
+  intro a b ht ha hb
+  rw [Ev.lt_iff]; omega
 
 /-! non-vacuity: a concrete run with ties, nested scheduling and a cancellation -/
 section Example
